@@ -52,12 +52,28 @@ typedef struct {
         X(sm3, SM3, base) X(sm3, SM3, avx2) X(sm3, SM3, avx512)
 
 FAMS(DECL)
-static const famdesc fams[] = { FAMS(ENT){ 0, 0, 0, 0, 0 } };
 
-/* public (dispatched) entry points, as family "pub" */
-#define PUBENT(alg)                                                                                 \
-        { #alg, "pub", (init_fn) isal_pub_##alg##_init, (submit_fn) isal_pub_##alg##_submit,        \
-          (flush_fn) isal_pub_##alg##_flush },
+/* public (dispatched) isal_ entry points, as family "pub"; last return code kept in pub_rc */
+static int pub_rc;
+#define PUBDEF(alg, ALG)                                                                            \
+        static void pub_##alg##_init(void *m) { pub_rc = isal_##alg##_ctx_mgr_init(m); }            \
+        static void *pub_##alg##_submit(void *m, void *c, const void *b, uint32_t l, int f)         \
+        {                                                                                           \
+                ISAL_##ALG##_HASH_CTX *out = NULL;                                                  \
+                pub_rc = isal_##alg##_ctx_mgr_submit(m, c, &out, b, l, (ISAL_HASH_CTX_FLAG) f);     \
+                return out;                                                                         \
+        }                                                                                           \
+        static void *pub_##alg##_flush(void *m)                                                     \
+        {                                                                                           \
+                ISAL_##ALG##_HASH_CTX *out = NULL;                                                  \
+                pub_rc = isal_##alg##_ctx_mgr_flush(m, &out);                                       \
+                return out;                                                                         \
+        }
+PUBDEF(sha1, SHA1) PUBDEF(sha256, SHA256) PUBDEF(sha512, SHA512) PUBDEF(md5, MD5) PUBDEF(sm3, SM3)
+#define PUBENT(alg) { #alg, "pub", pub_##alg##_init, pub_##alg##_submit, pub_##alg##_flush },
+
+static const famdesc fams[] = { FAMS(ENT) PUBENT(sha1) PUBENT(sha256) PUBENT(sha512) PUBENT(md5)
+                                        PUBENT(sm3){ 0, 0, 0, 0, 0 } };
 
 /* per-algorithm layout */
 typedef struct {
@@ -104,6 +120,7 @@ static uint8_t *mgr;
 static FILE *fo, *fr;
 static long monitor_fail;
 static int is_sync; /* base / sb_sse4: mgr memory is not API-defined */
+static int is_pub;
 
 #define FLD32(p, off) (*(uint32_t *) ((p) + (off)))
 #define FLD64(p, off) (*(uint64_t *) ((p) + (off)))
@@ -243,6 +260,7 @@ int main(int argc, char **argv)
         for (F = fams; F->alg && (strcmp(F->alg, alg) || strcmp(F->fam, fam)); F++) ;
         if (!A->alg || !F->alg || !fo || !fr) { fprintf(stderr, "unknown alg/fam or file\n"); return 2; }
         is_sync = !strcmp(fam, "base") || !strcmp(fam, "sb_sse4");
+        is_pub = !strcmp(fam, "pub");
         rng_t R;
         rng_seed(&R, seed);
         OpenSSL_add_all_digests();
@@ -301,6 +319,7 @@ int main(int argc, char **argv)
                         if (do_flush) {
                                 fprintf(fo, "F\n");
                                 void *ret = F->flush(mgr);
+                                if (is_pub && pub_rc != 0) monitor("C11-valid-flush-reported-failed", pub_rc);
                                 print_result(ret, 0);
                                 int rc = ret ? idx_of(ret) : -1;
                                 if (rc >= 0) returned(rc, 0);
@@ -327,6 +346,11 @@ int main(int argc, char **argv)
                                         for (int i = 0; i < nctx; i++) memcpy(snap_ctx + i * A->ctx_size, cx[i].obj, A->ctx_size);
                                 }
                                 void *ret = F->submit(mgr, h->obj, data, len, flags);
+                                if (is_pub) {
+                                        int want_rc = !rej ? 0 : (flags & ~3) ? 2011 : (st0 & ISAL_HASH_CTX_STS_PROCESSING) ? 2012 : 2013;
+                                        if (!rej && pub_rc != 0) monitor("C11-valid-submit-reported-failed", pub_rc);
+                                        if (rej && pub_rc != want_rc) monitor("C11-rejected-submit-wrong-return-code", pub_rc);
+                                }
                                 print_result(ret, rej);
                                 int rc = ret ? idx_of(ret) : -1;
                                 if (rej) {
